@@ -8,15 +8,21 @@ package dnsforward
 //
 //vx:overlay internal/dnsforward/zz_vx_c05.go
 //vx:entry vxC05Server reach=guarded-access
+//vx:entry vxC05ServerAdmin reach=guarded-access
 //vx:entry vxC05ProtectionResume reach=resumed
 //vx:stub (*github.com/AdguardTeam/urlfilter.DNSEngine).MatchRequest vxC05MatchRequest
 //vx:stub time.Now vxC05Now
+//vx:stub (*encoding/json.Decoder).Decode vxC05DJSONDecode
+//vx:stub github.com/AdguardTeam/AdGuardHome/internal/aghhttp.WriteJSONResponse vxC05DWriteJSON
+//vx:stub github.com/AdguardTeam/AdGuardHome/internal/dnsforward.newAccessCtx vxC05DNewAccess
 //vx:opaque (net/netip.Addr).String
 //vx:opaque (net/netip.Prefix).String
 //vx:opaque (net.IP).String
 
 import (
 	"context"
+	"encoding/json"
+	"net/http"
 	"net/netip"
 	"time"
 
@@ -119,5 +125,75 @@ func vxC05ProtectionResume() {
 	on, _ := s.dnsFilter.ProtectionStatus()
 	vx.Assert(on, "protection is switched on again")
 	vx.Reach("resumed")
+	vx.Assert(vx.Held(&s.serverLock) == 0, "serverLock is released on return")
+}
+
+// ---- admin handlers of the DNS server: access lists and the protection switch ----
+
+func vxC05DJSONDecode(dec *json.Decoder, v any) error {
+	switch r := v.(type) {
+	case **accessListJSON:
+		(*r).AllowedClients = []string{"10.0.0.0/8"}
+		(*r).DisallowedClients = []string{}
+		(*r).BlockedHosts = []string{"blocked.example"}
+	case *protectionJSON:
+		r.Enabled = false
+		r.Duration = 60_000
+	}
+	return nil
+}
+
+func vxC05DWriteJSON(w http.ResponseWriter, r *http.Request, code int, resp any) {}
+
+// vxC05DNewAccess: building the rule engine of the blocked-hosts list is not
+// part of the lock discipline.
+func vxC05DNewAccess(allowed, blocked, blockedHosts []string) (*accessManager, error) {
+	return &accessManager{
+		allowedIPs:       container.NewMapSet[netip.Addr](),
+		blockedIPs:       container.NewMapSet[netip.Addr](),
+		allowedClientIDs: container.NewMapSet[string](),
+		blockedClientIDs: container.NewMapSet[string](),
+		blockedHostsEng:  &urlfilter.DNSEngine{},
+	}, nil
+}
+
+type vxC05DWriter struct{ h http.Header }
+
+func (w *vxC05DWriter) Header() http.Header         { return w.h }
+func (w *vxC05DWriter) Write(b []byte) (int, error) { return len(b), nil }
+func (w *vxC05DWriter) WriteHeader(code int)        {}
+
+// vxC05ServerAdmin: one admin request to the DNS server's own handlers; the
+// configuration-modified callback reads the server back like the production
+// one (home.onConfigModified -> config.write).
+func vxC05ServerAdmin() {
+	s := vxC05NewServer()
+	s.dnsFilter = filtering.VxC05NewFilter(&filtering.Config{ProtectionEnabled: true})
+	s.conf.ConfigModified = func() {
+		c := Config{}
+		s.WriteDiskConfig(&c)
+		s.LocalPTRResolvers()
+	}
+	vx.Guard(&s.access, &s.serverLock, "dnsforward.Server.access")
+	vx.Guard(&s.conf.AllowedClients, &s.serverLock, "dnsforward.Server.conf.AllowedClients")
+	vx.Guard(&s.conf.DisallowedClients, &s.serverLock, "dnsforward.Server.conf.DisallowedClients")
+	vx.Guard(&s.conf.BlockedHosts, &s.serverLock, "dnsforward.Server.conf.BlockedHosts")
+
+	w := &vxC05DWriter{h: http.Header{}}
+	r := (&http.Request{Method: http.MethodPost, Header: http.Header{"Content-Type": {"application/json"}}, Body: http.NoBody}).WithContext(context.Background())
+	switch vx.Choice("op", 4) {
+	case 0:
+		s.handleAccessSet(w, r)
+	case 1:
+		s.handleAccessList(w, r)
+	case 2:
+		s.handleSetProtection(w, r)
+	default: // configuration save on its own
+		c := Config{}
+		s.WriteDiskConfig(&c)
+	}
+	if vx.GuardHits() > 0 {
+		vx.Reach("guarded-access")
+	}
 	vx.Assert(vx.Held(&s.serverLock) == 0, "serverLock is released on return")
 }
